@@ -58,16 +58,18 @@ func (w *c01Writer) Write(b []byte) (int, error) {
 }
 
 type c01CStep struct {
-	N int   `json:"n"`           // route index
+	N int   `json:"n"`           // route index; -1: no request, the whole case sleeps 11 s (longer than the 10 s window)
 	K int   `json:"k,omitempty"` // 0 answer status C; 1 panic before writing anything; 2 answer status C, then panic
 	C int   `json:"c,omitempty"` // final status; 0 = body without WriteHeader
 	I []int `json:"i,omitempty"` // interim 1xx responses sent first (only when T == 0)
 }
 
 type c01CCase struct {
-	K     int        `json:"k"` // routes: index i = method i%2 (GET, POST), path /c01/{a,b}[i/2]
-	T     int        `json:"t"` // Config.Timeout in ms (0: no timeout guard, no buffering)
-	Kind  []int      `json:"kind"`
+	K     int        `json:"k"`            // routes: index i has method M[i] and path /c01/r<i>
+	M     []string   `json:"m"`            // per route: HTTP method
+	WS    []bool     `json:"ws,omitempty"` // per route: requests carry "Upgrade: websocket" (the timeout guard steps aside)
+	T     int        `json:"t"`            // Config.Timeout in ms (0: no timeout guard, no buffering)
+	Kind  []int      `json:"kind"`         // per route: 0 benign, 1 failing, 2 mixed, 3 outage - recovery - second outage (phases separated by the 11 s sleeps)
 	Steps []c01CStep `json:"steps"`
 	Skew  int64      `json:"skew,omitempty"`
 }
@@ -92,10 +94,37 @@ func c01GenChain(rt *rapid.T) c01CCase {
 		return out
 	}
 	scripts := make([][]c01CStep, c.K)
+	recovery := rapid.IntRange(0, 3).Draw(rt, "recovery") == 0 // a case with two 11 s sleeps: no plain failing route in it
+	phases := make([][2]int, c.K)                              // per route: script positions at which phase 1 and phase 2 start
 	for n := 0; n < c.K; n++ {
 		kind := rapid.SampledFrom([]int{0, 0, 1, 1, 2}).Draw(rt, "kind")
+		if recovery {
+			kind = rapid.SampledFrom([]int{3, 3, 0, 2}).Draw(rt, "rkind")
+		}
 		c.Kind = append(c.Kind, kind)
+		c.M = append(c.M, rapid.SampledFrom([]string{http.MethodGet, http.MethodPost, http.MethodPut, http.MethodDelete, http.MethodPatch, http.MethodHead, http.MethodOptions}).Draw(rt, "method"))
+		c.WS = append(c.WS, rapid.IntRange(0, 5).Draw(rt, "ws") == 0)
 		switch kind {
+		case 3:
+			failStep := func() c01CStep {
+				if rapid.Bool().Draw(rt, "p") {
+					return c01CStep{N: n, K: 1}
+				}
+				return c01CStep{N: n, C: failingCode.Draw(rt, "code")}
+			}
+			for ph := 0; ph < 3; ph++ {
+				ln := rapid.IntRange(200, 240).Draw(rt, "n")
+				for i := 0; i < ln; i++ {
+					if ph == 1 {
+						scripts[n] = append(scripts[n], c01CStep{N: n, C: benignCode.Draw(rt, "code")})
+					} else {
+						scripts[n] = append(scripts[n], failStep())
+					}
+				}
+				if ph < 2 {
+					phases[n][ph] = len(scripts[n])
+				}
+			}
 		case 0:
 			ln := rapid.IntRange(200, 280).Draw(rt, "n")
 			single := rapid.Bool().Draw(rt, "single")
@@ -144,43 +173,68 @@ func c01GenChain(rt *rapid.T) c01CCase {
 		}
 	}
 	pos := make([]int, c.K)
-	for {
-		var active []int
+	nph := 1
+	if recovery {
+		nph = 3
+	}
+	for ph := 0; ph < nph; ph++ {
+		// end of this phase per route
+		end := make([]int, c.K)
 		for n := range scripts {
-			if pos[n] < len(scripts[n]) {
-				active = append(active, n)
+			switch {
+			case !recovery || ph == 2:
+				end[n] = len(scripts[n])
+			case c.Kind[n] == 3:
+				end[n] = phases[n][ph]
+			default:
+				end[n] = len(scripts[n]) * (ph + 1) / 3
 			}
 		}
-		if len(active) == 0 {
-			break
+		for {
+			var active []int
+			for n := range scripts {
+				if pos[n] < end[n] {
+					active = append(active, n)
+				}
+			}
+			if len(active) == 0 {
+				break
+			}
+			n := rapid.SampledFrom(active).Draw(rt, "route")
+			chunk := rapid.SampledFrom([]int{1, 1, 2, 5, 20, 100, 400}).Draw(rt, "chunk")
+			for ; chunk > 0 && pos[n] < end[n]; chunk-- {
+				c.Steps = append(c.Steps, scripts[n][pos[n]])
+				pos[n]++
+			}
 		}
-		n := rapid.SampledFrom(active).Draw(rt, "route")
-		chunk := rapid.SampledFrom([]int{1, 1, 2, 5, 20, 100, 400}).Draw(rt, "chunk")
-		for ; chunk > 0 && pos[n] < len(scripts[n]); chunk-- {
-			c.Steps = append(c.Steps, scripts[n][pos[n]])
-			pos[n]++
+		if ph < nph-1 {
+			c.Steps = append(c.Steps, c01CStep{N: -1})
 		}
 	}
 	return c
 }
 
-func c01Methods(k int) (methods, paths []string) {
+func c01Methods(k int, ms []string) (methods, paths []string) {
 	for n := 0; n < k; n++ {
-		methods = append(methods, []string{http.MethodGet, http.MethodPost}[n%2])
-		paths = append(paths, []string{"/c01/a", "/c01/b"}[(n/2)%2])
+		m := http.MethodGet
+		if n < len(ms) && ms[n] != "" {
+			m = ms[n]
+		}
+		methods = append(methods, m)
+		paths = append(paths, fmt.Sprintf("/c01/r%d", n))
 	}
 	return
 }
 
 // c01BuildServer: public API + the engine's own binding, as Server.Start does before it listens.
-func c01BuildServer(k, timeoutMS int, h func(n int) http.HandlerFunc) (*Server, error) {
+func c01BuildServer(k int, ms []string, timeoutMS int, h func(n int) http.HandlerFunc) (*Server, error) {
 	cfg := Config{Timeout: int64(timeoutMS)}
 	cfg.Name = "c01" // CpuThreshold 0: no shedder; MaxConns 0: no latch
 	srv, err := NewServer(cfg)
 	if err != nil {
 		return nil, err
 	}
-	methods, paths := c01Methods(k)
+	methods, paths := c01Methods(k, ms)
 	for n := 0; n < k; n++ {
 		srv.AddRoutes([]Route{{Method: methods[n], Path: paths[n], Handler: h(n)}})
 	}
@@ -195,19 +249,20 @@ func init() {
 	stat.DisableLog()
 	// warm up process-wide singletons (prometheus vectors, otel globals) outside any bubble
 	for _, t := range []int{0, 1000} {
-		srv, err := c01BuildServer(1, t, func(int) http.HandlerFunc {
+		srv, err := c01BuildServer(1, nil, t, func(int) http.HandlerFunc {
 			return func(w http.ResponseWriter, r *http.Request) { _, _ = w.Write([]byte("warm")) }
 		})
 		if err != nil {
 			panic(err)
 		}
-		srv.router.ServeHTTP(httptest.NewRecorder(), httptest.NewRequest(http.MethodGet, "/c01/a", nil))
+		srv.router.ServeHTTP(httptest.NewRecorder(), httptest.NewRequest(http.MethodGet, "/c01/r0", nil))
 	}
 }
 
 func c01InterpChain(t *testing.T, c c01CCase) (v kit.Verdict) {
 	var fail string
 	rejected := make([]int, c.K)
+	rejPhase := make([][3]int, c.K)
 	nfail := make([]int, c.K)
 	calls := make([]int, c.K)
 	classes := map[string]bool{}
@@ -217,7 +272,7 @@ func c01InterpChain(t *testing.T, c c01CCase) (v kit.Verdict) {
 		}
 		ran := make([]int, c.K)
 		var cur c01CStep
-		srv, err := c01BuildServer(c.K, c.T, func(n int) http.HandlerFunc {
+		srv, err := c01BuildServer(c.K, c.M, c.T, func(n int) http.HandlerFunc {
 			return func(w http.ResponseWriter, r *http.Request) {
 				ran[n]++
 				if cur.K == 1 {
@@ -239,8 +294,14 @@ func c01InterpChain(t *testing.T, c c01CCase) (v kit.Verdict) {
 			fail = "harness: server construction: " + err.Error()
 			return
 		}
-		methods, paths := c01Methods(c.K)
+		methods, paths := c01Methods(c.K, c.M)
+		phase := 0
 		for i, st := range c.Steps {
+			if st.N < 0 {
+				time.Sleep(11 * time.Second)
+				phase++
+				continue
+			}
 			n := st.N % c.K
 			if c.T != 0 {
 				st.I = nil
@@ -253,9 +314,13 @@ func c01InterpChain(t *testing.T, c c01CCase) (v kit.Verdict) {
 			before := ran[n]
 			w := &c01Writer{h: http.Header{}}
 			var escaped any
+			req := httptest.NewRequest(methods[n], "http://localhost"+paths[n], http.NoBody)
+			if n < len(c.WS) && c.WS[n] {
+				req.Header.Set("Upgrade", "websocket")
+			}
 			func() {
 				defer func() { escaped = recover() }()
-				srv.router.ServeHTTP(w, httptest.NewRequest(methods[n], "http://localhost"+paths[n], http.NoBody))
+				srv.router.ServeHTTP(w, req)
 			}()
 			what := fmt.Sprintf("step %d %+v (%s %s, request %d of that route)", i, st, methods[n], paths[n], calls[n])
 			if escaped != nil {
@@ -264,12 +329,19 @@ func c01InterpChain(t *testing.T, c c01CCase) (v kit.Verdict) {
 			}
 			if ran[n] == before {
 				rejected[n]++
+				if phase < 3 {
+					rejPhase[n][phase]++
+				}
 				if w.code != http.StatusServiceUnavailable {
 					fail = fmt.Sprintf("%s: handler not run but the response status is %d, want 503", what, w.code)
 					return
 				}
 				if c.Kind[n] == 0 {
 					fail = fmt.Sprintf("%s rejected although this route produced only final statuses below 500 and %d (<=5) failures; kinds of all routes: %v", what, nfail[n], c.Kind)
+					return
+				}
+				if c.Kind[n] == 3 && phase == 1 {
+					fail = fmt.Sprintf("%s rejected in the recovery phase: the outage ended more than 10 s ago (11 s sleep), every failure has aged out of the window and the route has only answered below 500 since", what)
 					return
 				}
 				continue
@@ -297,6 +369,10 @@ func c01InterpChain(t *testing.T, c c01CCase) (v kit.Verdict) {
 			}
 		}
 		for n := 0; n < c.K; n++ {
+			if c.Kind[n] == 3 && (rejPhase[n][0] == 0 || rejPhase[n][2] == 0) {
+				fail = fmt.Sprintf("%s %s: rejections per phase %v: each outage (>= 200 consecutive failures, nothing else in the window) must be cut off at least once", methods[n], paths[n], rejPhase[n])
+				return
+			}
 			if c.Kind[n] == 1 && rejected[n] == 0 {
 				fail = fmt.Sprintf("%s %s: %d consecutive requests ending in a status >= 500 or a handler panic were all admitted: the breaker never cut off; route kinds %v", methods[n], paths[n], calls[n], c.Kind)
 				return
@@ -305,11 +381,20 @@ func c01InterpChain(t *testing.T, c c01CCase) (v kit.Verdict) {
 	})
 	hasB, hasF := false, false
 	for _, kd := range c.Kind {
-		classes[[]string{"benign-route", "failing-route", "mixed-route"}[kd]] = true
+		classes[[]string{"benign-route", "failing-route", "mixed-route", "outage-recovery-outage-route"}[kd]] = true
 		hasB = hasB || kd == 0
 		hasF = hasF || kd == 1
 	}
+	for n := 0; n < c.K && n < len(c.M); n++ {
+		classes["method-"+c.M[n]] = true
+		if n < len(c.WS) && c.WS[n] {
+			classes["upgrade-websocket-header"] = true
+		}
+	}
 	for _, st := range c.Steps {
+		if st.N < 0 {
+			continue
+		}
 		kd := c.Kind[st.N%c.K]
 		switch {
 		case kd == 1 && st.K == 1:
@@ -330,7 +415,7 @@ func c01InterpChain(t *testing.T, c c01CCase) (v kit.Verdict) {
 	if c.K > 1 {
 		classes["several-routes"] = true
 	}
-	v.NonTrivial = hasB || hasF
+	v.NonTrivial = hasB || hasF || classes["outage-recovery-outage-route"]
 	for k := range classes {
 		v.Classes = append(v.Classes, k)
 	}
